@@ -1,5 +1,5 @@
 import Urandom.Model.Standard
-import Urandom.Generated.GlueRandom
+import Urandom.Generated.GlueRandomDistr
 import Urandom.Generated.GlueDistr
 import Urandom.Generated.GlueStandard
 /-!
